@@ -69,6 +69,10 @@ enum Op {
     SelfVar(u16),
     SelfTemplate(u16, u8),
     ReplaceAtom(u16, u16),
+    /// add a defcfg option (name from the parser's own source) with a boundary value
+    DefcfgOption(u16, u8),
+    /// repeat one child of a list until the list has a boundary number of children
+    FillList(u16, u16, u8),
     // byte-level
     ByteInsert(u16, u8),
     Truncate(u16),
@@ -92,6 +96,8 @@ fn op_strategy() -> BoxedStrategy<Op> {
         1 => any::<u16>().prop_map(Op::SelfVar),
         1 => (any::<u16>(), 0u8..9).prop_map(|(a, b)| Op::SelfTemplate(a, b)),
         3 => (any::<u16>(), any::<u16>()).prop_map(|(a, b)| Op::ReplaceAtom(a, b)),
+        3 => (any::<u16>(), 0u8..20).prop_map(|(a, b)| Op::DefcfgOption(a, b)),
+        1 => (any::<u16>(), any::<u16>(), 0u8..32).prop_map(|(a, b, c)| Op::FillList(a, b, c)),
         2 => (any::<u16>(), 0u8..10).prop_map(|(a, b)| Op::ByteInsert(a, b)),
         1 => any::<u16>().prop_map(Op::Truncate),
         1 => Just(Op::Bom),
@@ -101,6 +107,10 @@ fn op_strategy() -> BoxedStrategy<Op> {
 }
 
 const NUMS: [&str; 8] = ["0", "1", "65535", "65536", "-1", "99999999999", "767", "768"];
+const OPTION_VALUES: [&str; 20] = ["0", "1", "2", "3", "4", "5", "6", "10", "255", "256", "30000", "30001", "65535", "65536", "-1", "yes", "no", "()", "x", "99999999999"];
+const FILL_COUNTS: [usize; 32] = [
+    3, 7, 8, 9, 15, 16, 17, 31, 32, 33, 63, 64, 65, 127, 128, 129, 255, 256, 257, 1023, 1024, 1025, 4090, 4091, 4092, 4093, 4094, 4095, 4096, 4097, 4098, 4099,
+];
 const NAMES: [&str; 6] = ["nosuchname", "@unknown", "$unknownvar", "$self", "@", "$"];
 const BYTES: [&str; 10] = ["é", "🔣", "\"", "r#\"", "#|", "\0", "(", ")", "|#", "\u{feff}"];
 
@@ -243,6 +253,52 @@ fn apply_ops(entry_idx: usize, ops: &[Op]) -> String {
                     if !done {
                         if let Some(slot) = locate(fs, start) {
                             *slot = Node::atom(NUMS[*w as usize % NUMS.len()]);
+                        }
+                    }
+                }
+                Op::DefcfgOption(s, w) => {
+                    if cp.defcfg_options.is_empty() {
+                        continue;
+                    }
+                    let name = Node::atom(&cp.defcfg_options[pick(*s, cp.defcfg_options.len())]);
+                    let val = match OPTION_VALUES[*w as usize % OPTION_VALUES.len()] {
+                        "()" => Node::List(vec![]),
+                        v => Node::atom(v),
+                    };
+                    let existing = fs.iter_mut().find_map(|f| match f {
+                        Node::List(l) if l.first().and_then(|x| x.as_atom()) == Some("defcfg") => Some(l),
+                        _ => None,
+                    });
+                    match existing {
+                        Some(l) => {
+                            // replace the value when the option is there already (an option may be given once)
+                            match l.iter().position(|x| *x == name) {
+                                Some(i) if i + 1 < l.len() => l[i + 1] = val,
+                                _ => {
+                                    l.push(name);
+                                    l.push(val);
+                                }
+                            }
+                        }
+                        None => fs.insert(0, Node::List(vec![Node::atom("defcfg"), name, val])),
+                    }
+                }
+                Op::FillList(s, c, w) => {
+                    let start = pick(*s, n);
+                    for off in 0..n.min(200) {
+                        let i = (start + off) % n;
+                        if let Some(Node::List(l)) = locate(fs, i) {
+                            if l.len() >= 2 {
+                                let child = l[1 + pick(*c, l.len() - 1)].clone();
+                                let want = FILL_COUNTS[*w as usize % FILL_COUNTS.len()];
+                                // (the list head counts as a child; keep the text below the size bound)
+                                if child.count() * want < 12_000 {
+                                    while l.len() < want {
+                                        l.push(child.clone());
+                                    }
+                                }
+                                break;
+                            }
                         }
                     }
                 }
